@@ -79,7 +79,10 @@ func (r *runner) open() error {
 	if err := r.idx.Open(); err != nil {
 		return err
 	}
-	// compactions are driven explicitly (roll/clog/clvl) or by `bg`
+	// Open starts the partitions' own compaction (every non-active log file, then level
+	// merges); it cannot be switched off beforehand, so let it settle. Afterwards compactions
+	// are driven explicitly (roll/clog/clvl) or by `bg`.
+	r.settle()
 	r.idx.DisableCompactions()
 	r.idx.Wait()
 	r.opened = true
@@ -98,7 +101,19 @@ func (r *runner) closeAll() {
 	r.opened = false
 }
 
+// Close must not hang the whole run when the code under test leaks a file-set reference
+// (Index.Close waits for every retained file): give up after a while.
 func (r *runner) Close() {
+	const closeTimeout = 15 * time.Second
+	done := make(chan struct{})
+	go func() { defer close(done); defer func() { recover() }(); r.closeNow() }()
+	select {
+	case <-done:
+	case <-time.After(closeTimeout):
+	}
+}
+
+func (r *runner) closeNow() {
 	r.closeAll()
 	if r.dir != "" {
 		os.RemoveAll(r.dir)
